@@ -7,7 +7,7 @@ from classy_blocks.base.element import ElementBase
 from classy_blocks.base.exceptions import EdgeCreationError
 from classy_blocks.construct.curves.curve import CurveBase
 from classy_blocks.construct.curves.discrete import DiscreteCurve
-from classy_blocks.construct.point import Point, Vector
+from classy_blocks.construct.point import AxisVector, Point
 from classy_blocks.types import EdgeKindType, NPPointListType, PointListType, PointType, ProjectToType, VectorType
 from classy_blocks.util import functions as f
 
@@ -95,7 +95,7 @@ class Angle(EdgeData):
 
     def __init__(self, angle: float, axis: VectorType):
         self.angle = angle
-        self.axis = Vector(f.unit_vector(axis))
+        self.axis = AxisVector(f.unit_vector(axis))
 
     def translate(self, displacement):
         """Axis is not to be translated"""
